@@ -38,7 +38,7 @@ TNW == Is("NW") /\ (IF Wild THEN Upd(Ev.c + 1, Cur) ELSE Upd(Ev.c + 1, NWStep(Cu
 TWR == Is("WR") /\ (IF Wild THEN Upd(Ev.c + 1, Cur) ELSE Upd(Ev.c + 1, WRStep(Cur, Ev.n, Ev.ret, Ev.err, Ev.tx)))
 TWRS == Is("WRS") /\ (IF Wild THEN Upd(Ev.c + 1, Cur) ELSE Upd(Ev.c + 1, WRSStep(Cur, Ev.n, Ev.ret, Ev.err, Ev.tx)))
 (* a writer that has ended (closed, or superseded by a later message) accepts nothing and does nothing *)
-TWRO == Is("WRO") /\ (Wild \/ (~IsNil(Ev.err) /\ Ev.ret = 0 /\ Ev.tx = << >>)) /\ Upd(Ev.c + 1, Cur)
+TWRO == Is("WRO") /\ (Wild \/ (~IsNil(Ev.err) /\ ~IsNil(Ev.cerr) /\ Ev.ret = 0 /\ Ev.tx = << >>)) /\ Upd(Ev.c + 1, Cur)
 TCL == Is("CL") /\ (IF Wild THEN Upd(Ev.c + 1, Cur) ELSE Upd(Ev.c + 1, CLStep(Cur, Ev.err, Ev.tx)))
 TWM == (Is("WM") \/ Is("WJ")) /\ (IF Wild THEN Upd(Ev.c + 1, Cur) ELSE Upd(Ev.c + 1, WMStep(Cur, Ev.type, Ev.n, Ev.m, Ev.err, Ev.tx)))
 TWJB == Is("WJB") /\ (IF Wild THEN Upd(Ev.c + 1, Cur) ELSE Upd(Ev.c + 1, WJBStep(Cur, Ev.m, Ev.err, Ev.tx)))
